@@ -330,6 +330,8 @@ def main():
     except c15_gen.Untranslatable as e:
         run.proof_broken.append(f"translator:tensorclass.py:{e}")
     run.build_and_audit(["TdVerif.Props.C15"])
+    import c15_ast
+    c15_ast.check(run, "C15")      # ast-shape obligations: the hand-transcribed functions still have the shape they were transcribed from
     if run.tier == "thorough" and not run.proof_broken:
         run.leanchecker(["TdVerif.Props.C15"])
     if meta is None:
@@ -345,10 +347,14 @@ def main():
     S.torch_functions(run, drv, ["D1", "S1"] if run.tier == "quick" else ["D1", "S1", "Fz", "Ac", "Nc", "Sh", "D2"])
     S.typed_fields(run, drv)
     S.items_stream(run, drv)
+    S.zero_d_setitem(run)
+    S.set_inplace_stream(run, drv)
+    S.set_tuple_stream(run, drv)
     S.containers(run)
     S.update_stream(run, drv)
     S.tuple_pieces_stream(run)
     S.option_probes(run, kinds)
+    S.options_stream(run, drv)
     debug_dump(run)
     run.finish("proof")
 
